@@ -873,6 +873,10 @@ static int _fetch_and_process_packet(OggVorbis_File *vf,
           vf->current_serialno=vf->os.serialno;
           vf->current_link++;
           link=0;
+          /* _fetch_headers has already submitted the page it leaves
+             in og; submitting it a second time would be reported as
+             a hole at every link boundary */
+          continue;
         }
       }
     }
